@@ -80,6 +80,7 @@ class _Placeholder(types.ModuleType):
 # packages entered without running their __init__ (it would import the parser)
 SKIPINIT = {'edb.schema', 'edb.edgeql', 'edb.server.compiler', 'edb.pgsql', 'edb.ir', 'edb.server'}
 REAL = {'edb.server.compiler.dbstate', 'edb.server.compiler.compiler', 'edb.server.compiler.enums',
+        'edb.server.compiler.ddl',
         'edb.edgeql.ast', 'edb.edgeql.qltypes', 'edb.schema.defines', 'edb.server.defines',
         'edb.pgsql.params', 'edb.server.args', 'edb.server.metrics'}
 PLACEHOLDER_ROOTS = {'edb._edgeql_parser', 'edb.common.turbo_uuid', 'edb.graphql'}
@@ -151,6 +152,82 @@ class ChainedSchema:
             raise errors.InvalidReferenceError(f'module {name!r} does not exist')
         return name
 
+    def get_last_migration(self):
+        return None          # the migration log itself is not modelled
+
+
+class DeltaGuidance:
+    """edb.schema.objects.DeltaGuidance stand-in (part of the pickled migration state)."""
+
+    def __eq__(self, o):
+        return isinstance(o, DeltaGuidance)
+
+    def __hash__(self):
+        return 1
+
+
+class FakeDelta:
+    """What s_ddl.delta_and_schema_from_ddl / delta_from_ddl / delta_schemas return."""
+
+    def __init__(self, new_schema=None, subcommands=()):
+        self.new_schema = new_schema
+        self.warnings = ()
+        self._sub = tuple(subcommands)
+
+    def get_subcommands(self, **kw):
+        return self._sub
+
+    def apply(self, schema, context):
+        return self.new_schema
+
+
+class FakeBlock:
+    """edb.pgsql.dbops.PLTopBlock stand-in: the SQL text is never looked at."""
+
+    def __init__(self):
+        self.cmds = []
+
+    def is_transactional(self):
+        return True
+
+    def to_string(self):
+        return 'ddl'
+
+    def get_statements(self):
+        return ['ddl']
+
+    def add_command(self, c):
+        self.cmds.append(c)
+
+
+def apply_fake_ddl(errors, sch, ql):
+    """The schema-level effect of one fake DDL statement on a ChainedSchema (module
+    tags in the user schema, role tags in the global schema), or the error the
+    schema layer would raise."""
+    d = ql.__dict__
+    if d.get('reject'):
+        raise errors.SchemaDefinitionError(f'injected: DDL {d["op"]} {d["tag"]} rejected by the compiler')
+    op, tag = d['op'], d['tag']
+    if d.get('is_global'):
+        if op == 'add':
+            if tag in sch.glob.modules:
+                raise errors.SchemaError(f'role {tag} already exists')
+            roles = sch.glob.modules | {tag}
+        else:
+            if tag not in sch.glob.modules:
+                raise errors.InvalidReferenceError(f'role {tag} does not exist')
+            roles = sch.glob.modules - {tag}
+        return ChainedSchema(sch.std, sch.user, FlatSchema(sch.glob.tag + ('+' if op == 'add' else '-') + tag, roles))
+    if op == 'add':
+        if tag in sch.user.modules:
+            raise errors.SchemaError(f'module {tag} already exists')
+        mods = sch.user.modules | {tag}
+    else:
+        if tag not in sch.user.modules:
+            raise errors.InvalidReferenceError(f'module {tag} does not exist')
+        mods = sch.user.modules - {tag}
+    return ChainedSchema(sch.std, FlatSchema(sch.user.tag + ('+' if op == 'add' else '-') + tag, mods), sch.glob)
+
 
 class _Iso:
     def to_qltypes(self):
@@ -167,6 +244,7 @@ class _Acc:
 _CONFIG_DEFAULTS = {
     'force_database_error': 'false', '__internal_testmode': False,
     'default_transaction_isolation': _Iso(), 'default_transaction_access_mode': _Acc(),
+    'allow_bare_ddl': 'AlwaysAllow', 'store_migration_sdl': 'NeverStore',
 }
 
 
@@ -180,18 +258,28 @@ def fake_lookup(name, *maps, spec=None, allow_unrecognized=False):
 
 
 class Source:
+    """Stand-in for edgeql.Source: carries the hand-built statement list.  Inside a
+    migration block compiler.compile() re-tokenises the original text
+    (Source.from_string(source.text())): the "text" is a key into a registry."""
+    registry = {}
+
     def __init__(self, stmts):
         self.stmts = stmts
 
     def text(self):
-        return ''
+        key = f'<source {id(self)}>'
+        Source.registry.clear()          # one request in flight per compile() call
+        Source.registry[key] = self.stmts
+        return key
 
     def first_extra(self):
         return None
 
     @staticmethod
     def from_string(s):
-        raise HarnessError('Source.from_string is not expected on the transaction paths')
+        if s not in Source.registry:
+            raise HarnessError('Source.from_string of an unknown text')
+        return Source(Source.registry[s])
 
 
 class FakeConfigOpRecord:
@@ -214,7 +302,9 @@ STUBS = [
     'edb.schema.schema.FlatSchema / ChainedSchema -> opaque tagged value with a module set (4 methods used by the transaction code)',
     'edb.schema.modules.DEFAULT_MODULE_ALIAS, Module -> constants',
     'edb.server.config.lookup -> defaults for force_database_error/__internal_testmode/default_transaction_*',
-    'compiler.ddl.compile_and_apply_ddl_stmt -> derives a new tagged schema and calls the real Transaction.update_schema (or rejects)',
+    'edb.schema.ddl.delta_and_schema_from_ddl / delta_from_ddl / apply_sdl / delta_schemas / ddlast_from_delta -> module-tag arithmetic on the opaque schema (or the error the schema layer would raise); compiler/ddl.py itself is REAL',
+    'compiler.ddl._process_delta (SQL generation via pg_delta) -> adopts the schema-level result through the real Transaction.update_schema; pgsql.dbops blocks -> text-less stand-in',
+    'edb.schema.objects.DeltaGuidance, ChainedSchema.get_last_migration (always None: the migration log is not modelled)',
     'compiler._compile_ql_query -> records what the compiler sees (user schema tag, global schema tag, aliases, session config)',
     'compiler._compile_ql_config_op -> calls the real Transaction.update_session_config',
     'compiler.status.get_status, pgsql.common.quote_ident, compiler._get_schema_version, _extract_extensions, ddl.produce_feature_used_metrics, sertypes.NULL_TYPE_ID -> trivial',
@@ -235,7 +325,7 @@ def load(patches=None):
     if REPO not in sys.path:
         sys.path.insert(0, REPO)
     patched = {}
-    for name in ('edb.server.compiler.dbstate', 'edb.server.compiler.compiler'):
+    for name in ('edb.server.compiler.dbstate', 'edb.server.compiler.compiler', 'edb.server.compiler.ddl'):
         rel = name.replace('.', '/') + '.py'
         src = island.read_source(rel)
         new = island.apply_patches(src, patches, rel)
@@ -277,13 +367,36 @@ def load(patches=None):
 
     observed = collections.defaultdict(list)   # request key -> what its queries were compiled against
 
+    this = sys.modules[__name__]
+
+    def _register(cls):
+        # instances end up inside the pickled compiler state (MigrationState.accepted_cmds)
+        cls.__module__ = __name__
+        cls.__qualname__ = cls.__name__
+        setattr(this, cls.__name__, cls)
+        return cls
+
+    @_register
     class FakeDDL(qlast.DDLCommand):
         pass
 
+    @_register
+    class FakeGlobalDDL(qlast.GlobalObjectCommand):
+        pass
+
+    @_register
+    class FakeTarget(qlast.Schema):
+        pass
+
     def mkddl(op, tag, reject=False, is_global=False):
-        d = FakeDDL()
+        d = FakeGlobalDDL() if is_global else FakeDDL()
         d.__dict__.update(op=op, tag=tag, reject=reject, is_global=is_global)
         return d
+
+    def mktarget(mods):
+        tgt = FakeTarget(declarations=[])
+        tgt.__dict__['mods'] = tuple(sorted(mods))
+        return tgt
 
     class FakeQuery(qlast.Command):
         pass
@@ -297,41 +410,63 @@ def load(patches=None):
         c.scope = qltypes.ConfigScope.SESSION
         return c
 
-    def fake_ddl(ctx, ql, source=None):
-        if ql.reject:
-            raise errors.SchemaDefinitionError(f'injected: DDL {ql.op} {ql.tag} rejected by the compiler')
-        tx = ctx.state.current_tx()
-        sch = tx.get_schema(ctx.compiler_state.std_schema)
-        if ql.__dict__.get('is_global'):
-            # a DDL on a global object (CREATE / DROP ROLE): changes the global schema only
-            if ql.op == 'add':
-                if ql.tag in sch.glob.modules:
-                    raise errors.SchemaError(f'role {ql.tag} already exists')
-                roles = sch.glob.modules | {ql.tag}
-            else:
-                if ql.tag not in sch.glob.modules:
-                    raise errors.InvalidReferenceError(f'role {ql.tag} does not exist')
-                roles = sch.glob.modules - {ql.tag}
-            new_glob = FlatSchema(sch.glob.tag + ('+' if ql.op == 'add' else '-') + ql.tag, roles)
-            tx.update_schema(ChainedSchema(sch.std, sch.user, new_glob))
-            implicit = tx.is_implicit()
-            return dbstate.DDLQuery(sql=b'ddl', user_schema=sch.user if implicit else None,
-                                    global_schema=new_glob if implicit else None,
-                                    feature_used_metrics=None)
-        if ql.op == 'add':
-            if ql.tag in sch.user.modules:
-                raise errors.SchemaError(f'module {ql.tag} already exists')
-            mods = sch.user.modules | {ql.tag}
-        else:
-            if ql.tag not in sch.user.modules:
-                raise errors.InvalidReferenceError(f'module {ql.tag} does not exist')
-            mods = sch.user.modules - {ql.tag}
-        new_user = FlatSchema(sch.user.tag + ('+' if ql.op == 'add' else '-') + ql.tag, mods)
-        tx.update_schema(ChainedSchema(sch.std, new_user, sch.glob))
-        user_schema = new_user if tx.is_implicit() else None
-        return dbstate.DDLQuery(sql=b'ddl', user_schema=user_schema, feature_used_metrics=None)
+    # ---- the schema layer below compiler/ddl.py (ddl.py itself is real) ----
+    import edb.schema.ddl as s_ddl
+    import edb.schema.objects as s_obj
+    import edb.pgsql.dbops as pg_dbops
 
-    ddl.compile_and_apply_ddl_stmt = fake_ddl
+    def _apply_stmt(schema, stmt):
+        if isinstance(stmt, qlast.CreateMigration):
+            for cmd in stmt.body.commands:
+                schema = _apply_stmt(schema, cmd)
+            return schema
+        if isinstance(stmt, (FakeDDL, FakeGlobalDDL)):
+            return apply_fake_ddl(errors, schema, stmt)
+        raise HarnessError(f'schema layer stand-in cannot apply {type(stmt).__name__}')
+
+    def delta_and_schema_from_ddl(stmt, *, schema, modaliases, **kw):
+        new_schema = _apply_stmt(schema, stmt)
+        return new_schema, FakeDelta(new_schema)
+
+    def delta_from_ddl(stmt, *, schema, modaliases, **kw):
+        return FakeDelta(_apply_stmt(schema, stmt))
+
+    def apply_sdl(target, *, base_schema, current_schema, testmode=False):
+        mods = frozenset(target.__dict__['mods'])
+        tag = 'T(' + ','.join(sorted(mods - {'default', 'std'})) + ')'
+        return ChainedSchema(base_schema.std, FlatSchema(tag, mods), base_schema.glob), []
+
+    def _diff(schema, target):
+        cur, tgt = schema.user.modules, target.user.modules
+        return [('drop', m) for m in sorted(cur - tgt)] + [('add', m) for m in sorted(tgt - cur)]
+
+    def delta_schemas(schema, target, guidance=None):
+        return FakeDelta(None, _diff(schema, target))
+
+    def ddlast_from_delta(schema, target, diff, testmode=False):
+        return tuple(mkddl(op, m) for op, m in diff.get_subcommands())
+
+    s_ddl.delta_and_schema_from_ddl = delta_and_schema_from_ddl
+    s_ddl.delta_from_ddl = delta_from_ddl
+    s_ddl.apply_sdl = apply_sdl
+    s_ddl.delta_schemas = delta_schemas
+    s_ddl.ddlast_from_delta = ddlast_from_delta
+    s_obj.DeltaGuidance = DeltaGuidance
+    s_schema.EMPTY_SCHEMA = FlatSchema('empty', modules=())
+    pg_dbops.PLTopBlock = pg_dbops.PLBlock = pg_dbops.SQLBlock = FakeBlock
+
+    process_delta_fail = [False]
+
+    def fake_process_delta(ctx, delta):
+        # stand-in for the SQL generation (pg_delta): the schema-level result is adopted
+        if process_delta_fail[0]:
+            process_delta_fail[0] = False
+            raise errors.SchemaDefinitionError('injected: the delta is rejected when it is adapted for the backend')
+        ctx.state.current_tx().update_schema(delta.new_schema)
+        return FakeBlock(), frozenset(), []
+
+    ddl._process_delta = fake_process_delta
+    ddl._new_delta_context = lambda ctx, args=None: None
 
     def fake_query(ctx, ql, source=None, script_info=None):
         tx = ctx.state.current_tx()
@@ -411,7 +546,7 @@ def load(patches=None):
     _FROZEN[0] = True
     _state.update(
         key=repr(patches), errors=errors, qlast=qlast, qltypes=qltypes, dbstate=dbstate,
-        compiler=compiler, enums=enums, observed=observed, mkddl=mkddl, FakeQuery=FakeQuery,
+        compiler=compiler, enums=enums, observed=observed, mkddl=mkddl, mktarget=mktarget, FakeQuery=FakeQuery, ddl=ddl, process_delta_fail=process_delta_fail,
         mkconfig=mkconfig, Req=Req, C=compiler.Compiler(CS()), time=tp,
         FlatSchema=FlatSchema, DEFAULT_ALIASES=compiler.DEFAULT_MODULE_ALIASES_MAP,
         EMPTY=immutables.Map(), requests=requests, mods=pool_mods, wcode=wcode,
